@@ -10,7 +10,7 @@ ap = argparse.ArgumentParser()
 ap.add_argument('pid'); ap.add_argument('--checks'); ap.add_argument('--name')
 ap.add_argument('--skip-verify', action='store_true')
 a = ap.parse_args()
-wt = f'/tmp/wt-{a.pid}'
+wt = os.environ.get("SEED_WT") or f"/tmp/wt-{a.pid}"
 name = a.name or a.pid
 dest = f'/verif/seeded/{name}'
 env = dict(os.environ, PYTHONPATH=f'{wt}/src', PYTHONDONTWRITEBYTECODE='1')
